@@ -365,7 +365,7 @@ impl Check for C03 {
         vec!["TOML targets are covered by C08".into(), "JSON separators never glue a scalar to the next token (known finding K1)".into()]
     }
     fn units(&self, tier: Tier) -> Vec<Unit> {
-        vec![Unit::gen("history", 16, tier.pick(1500, 40_000)), Unit::enumerate("big", tier.pick(6, 16))]
+        vec![Unit::gen("history", 16, tier.pick(3000, 40_000)), Unit::enumerate("big", tier.pick(6, 16))]
     }
     fn required_classes(&self, _tier: Tier) -> Vec<&'static str> {
         vec!["docs:0", "docs:2-9", "docs:10-99", "docs:100+", "multi_input", "mixed_formats", "boundary_straddling", "scalar_documents", "to:json", "to:yaml", "to:msgpack"]
